@@ -15,7 +15,8 @@ EXPLANATION = (
     'pad-bit and not-encrypted only, takes its count from the last byte and cuts from the end; (6) CFG rules on '
     'iter_logical_records: exactly one add_bytes(_read_full_logical_data()) between consecutive header reads, '
     'seal dominates yield, seeks only to next_position; (7) import-time name resolution of the modules the '
-    'reader imports.')
+    'reader imports.'
+    ' Also, re-used from C02: every sequential pass starts by re-reading the first visible record (seek targets are recorded boundaries) and a fetch walks to the last segment, so a second pass or a pass interleaved with fetches reads the same records.')
 NOT_DECIDED = 'byte-for-byte equality of payloads over all segmentations; behaviour on malformed files.'
 ASSUMPTIONS = ['file objects implement read/seek/tell as io.RawIOBase documents',
                'RP66V1 section 2.2-2.3 constants as transcribed in DESIGN.md']
